@@ -1133,3 +1133,33 @@ Lemma rf_unlocked_loses_update :
   rf_finished s = true /\ rs_shared s = Some {| sm_rem := 2; sm_sent := [2] |}
   /\ fB (fA m) = {| sm_rem := 3; sm_sent := [] |}.
 Proof. vm_compute. repeat split. Qed.
+
+(* ---- an event processed while the metadata garbage collection is in progress ---- *)
+Lemma gc_step_shape : forall c s ch,
+  spray_step c s SeGC ch = Some ((if ss_stored s then s else set_meta_stored s None false), []).
+Proof. reflexivity. Qed.
+
+(* it is one of the two histories {GC; event}, {event; GC}: every theorem about histories applies *)
+Lemma step_gc_is_history : forall b c s e ch,
+  spray_step_gc b c s e ch
+  = spray_run c s (if b then [(SeGC, []); (e, ch)] else [(e, ch); (SeGC, [])]).
+Proof.
+  intros b c s e ch. unfold spray_step_gc. destruct b; cbn [spray_run].
+  - rewrite gc_step_shape.
+    destruct (spray_step c (if ss_stored s then s else set_meta_stored s None false) e ch) as [[s2 o]|];
+      [|reflexivity].
+    cbn [app]. rewrite app_nil_r. reflexivity.
+  - destruct (spray_step c s e ch) as [[s1 o]|]; [|reflexivity].
+    rewrite gc_step_shape. cbn [app]. rewrite app_nil_r. reflexivity.
+Qed.
+
+(* while the store knows the bundle before and after the event the collection is invisible, in
+   both orders: the event behaves as without it *)
+Lemma step_gc_transparent : forall b c s e ch s' o,
+  ss_stored s = true -> spray_step c s e ch = Some (s', o) -> ss_stored s' = true ->
+  spray_step_gc b c s e ch = Some (s', o).
+Proof.
+  intros b c s e ch s' o Hs He Hs'. unfold spray_step_gc. destruct b.
+  - rewrite gc_step_shape, Hs. exact He.
+  - rewrite He, gc_step_shape, Hs'. reflexivity.
+Qed.
